@@ -22,6 +22,8 @@ type c06Scenario struct {
 	Setup  []string // events performed with canonical delivery (monitors on, no exploration)
 	Events []string // "up x y", "down x y", "restart x", "twin x at y", "period": explored
 	Bound  int
+	Pairs  bool     // explore concurrent deliveries to one node instead of dup/drop/replay
+	Names  []string // nodes (default a, b, c)
 }
 
 type c06Monitor struct {
@@ -32,6 +34,7 @@ type c06Monitor struct {
 	relayed map[string]int // "x>y|updateID" -> times relayed
 	ownSeq  map[string]uint64
 	emitPos map[string]int
+	chkPos  map[string]int // how far checkEmissions has counted each link's emissions
 }
 
 type c06Pre struct {
@@ -75,8 +78,10 @@ func (mon *c06Monitor) checkEmissions(ctx string) {
 	}
 	var all []em
 	for k, v := range mon.m.emitted {
-		if len(v) > mon.emitPos[k] {
-			all = append(all, em{k, append([][]byte(nil), v[mon.emitPos[k]:]...)})
+		// every emission is counted exactly once, whichever step's check comes across it
+		if len(v) > mon.chkPos[k] {
+			all = append(all, em{k, append([][]byte(nil), v[mon.chkPos[k]:]...)})
+			mon.chkPos[k] = len(v)
 		}
 	}
 	mon.m.mu.Unlock()
@@ -270,10 +275,14 @@ func connCost(st netceptor.Status, pre c06Pre, peer string) float64 {
 func runC06Once(t *testing.T, sc c06Scenario, r *xrun) []Violation {
 	var out CaseOut
 	bubble(t, func(t *testing.T) {
-		m := newMesh(defaultConsts, "a", "b", "c")
+		names := sc.Names
+		if names == nil {
+			names = []string{"a", "b", "c"}
+		}
+		m := newMesh(defaultConsts, names...)
 		m.logEmit = true
 		m.idOf = map[string]string{}
-		mon := &c06Monitor{m: m, out: &out, relayed: map[string]int{}, emitPos: map[string]int{}}
+		mon := &c06Monitor{m: m, out: &out, relayed: map[string]int{}, emitPos: map[string]int{}, chkPos: map[string]int{}}
 		hist := map[string][][]byte{}
 		stopped := map[string][]c01Edge{}
 		for _, ev := range sc.Setup {
@@ -300,8 +309,13 @@ func runC06Once(t *testing.T, sc c06Scenario, r *xrun) []Violation {
 			}
 			mon.checkEmissions("event " + ev)
 			r.steps++
-			res := m.exploreSettle(r, settleOpts{canFireNext: i < len(sc.Events)-1, ctx: fmt.Sprintf("ev%d", i), bag: true, faults: true, noHold: true,
-				pre: mon.preDeliver, post: mon.postDeliver, history: hist, maxIter: 400})
+			res := m.exploreSettle(r, settleOpts{canFireNext: i < len(sc.Events)-1, ctx: fmt.Sprintf("ev%d", i), bag: !sc.Pairs, faults: !sc.Pairs, noHold: true,
+				pre: mon.preDeliver, post: mon.postDeliver, history: hist, maxIter: 400, pairs: sc.Pairs,
+				pairDone: func(l1, l2 string) {
+					mon.pre = c06Pre{}
+					mon.checkEmissions("concurrent delivery of " + l1 + " and " + l2)
+					mon.snapshotEmit()
+				}})
 			if res == "pruned" {
 				break
 			}
@@ -342,6 +356,15 @@ func runC06(w *W) {
 	add("chain, twin of c at a", chain, []string{"twin c at a"}, d)
 	add("chain, twin of a at c", chain, []string{"twin a at c"}, d)
 	add("chain, silent link then period", chain, []string{"silent a b", "period"}, d)
+	// concurrent arrival of the same update over two neighbours (handlers of different sessions run in parallel)
+	square := []string{"up a b 1", "up b c 1", "up c d 1", "up d a 1"}
+	abcd := []string{"a", "b", "c", "d"}
+	scs = append(scs,
+		c06Scenario{Name: "square, link down (concurrent arrivals)", Setup: square, Events: []string{"down a b"}, Bound: 1, Pairs: true, Names: abcd},
+		c06Scenario{Name: "square, periodic update (concurrent arrivals)", Setup: square, Events: []string{"period"}, Bound: 1, Pairs: true, Names: abcd},
+		c06Scenario{Name: "square, twin of c at a (concurrent arrivals)", Setup: square, Events: []string{"twin c at a"}, Bound: 1, Pairs: true, Names: abcd},
+		c06Scenario{Name: "triangle, restart c (concurrent arrivals)", Setup: tri, Events: []string{"stop c", "restart c"}, Bound: 1, Pairs: true},
+	)
 	for _, sc := range scs {
 		sc := sc
 		id := fmt.Sprintf("%s setup=%v events=%v d=%d", sc.Name, sc.Setup, sc.Events, sc.Bound)
@@ -479,7 +502,7 @@ func init() {
 		ID:        "C06",
 		Level:     "model_checking",
 		Technique: "stateless deviation-bounded DFS with state-hash pruning over delivery orders, duplication, loss and replay of routing updates between real Netceptor nodes in a synctest bubble; invariants checked around every single delivery through a read-only snapshot of the accepted (epoch, sequence) table",
-		Rule: "scenarios: triangle and 3-chain bring-up, link down / down+up, node restart (new epoch), periodic update, a later-started twin with the same ID (suspected-duplicate notices), silent link; links are bags (any in-flight update may be delivered next) and every in-flight update may be duplicated or dropped and each of the last 3 delivered updates of a link replayed; all schedules with <=d deviations (quick d=1, bring-up 2; thorough 2/3). " +
+		Rule: "scenarios: triangle and 3-chain bring-up, link down / down+up, node restart (new epoch), periodic update, a later-started twin with the same ID (suspected-duplicate notices), silent link; links are bags (any in-flight update may be delivered next) and every in-flight update may be duplicated or dropped and each of the last 3 delivered updates of a link replayed; all schedules with <=d deviations (quick d=1, bring-up 2; thorough 2/3); on a square and a triangle additionally the concurrent delivery of two updates that reach the same node over two links (both are handed over before the node runs, selected log statements are yield points). " +
 			"Monitors per delivery: accepted (epoch,seq) per origin never decreases (except duplicate hand-over); stale/equal/replayed/own updates change nothing and are not relayed; genuine updates are recorded and relayed exactly once to every other neighbour, never back to the sender; no knowledge about itself; flooding comes to rest. A case is one scenario; non-trivial = at least one choice point. " +
 			"Second engine: every sequence (with repetition) of length <=4 (quick) / <=5 (thorough) over a 6-update alphabet about one origin (equal (epoch,seq) with another ID, newer run with lower sequence, older run with higher sequence) sent by a scripted peer, compared step by step with a reference model (lexicographic maximum of unseen updates): picture, accepted (epoch,seq) and relays to the other neighbour.",
 		Assumptions: []string{"macro-step atomicity (one delivery is processed to quiescence before the next)", "a direct peer's own update that stops listing the receiver or disagrees on cost legitimately ends the session and is exempt from the no-change rule"},
